@@ -42,7 +42,7 @@ def vhdxCmd (st : St) : List String → String
       | .ok (v :: vs) =>
         let wf := Vhdx.chainWfb (v :: vs)
         s!"ok wf={if wf then 1 else 0} depth={vs.length + 1} " ++
-          checkStreamSpec v.read none 0 (Layers.overlay (Vhdx.chainLayers (v :: vs))) v.size a (rest.drop k)
+          checkStreamSpec v.read (some (fun s c => v.readSectors c s c)) v.sectorSize (Layers.overlay (Vhdx.chainLayers (v :: vs))) v.size a (rest.drop k)
       | .ok [] => "bad-args"
       | .error e => s!"err {e}"
     | _, _ => "bad-args"
